@@ -290,8 +290,11 @@ func scenario(tr *vh.Trace, rnd *rand.Rand, s, nscen int) (int, int64, bool) {
 			cl.Close()
 			// the real client's reader ends through core.Fatal("lost connection"):
 			// wait for it so that it is not mistaken for a loss in the next scenario
-			for i := 0; cs.NClientLost.Load() == lost0 && i < 20000; i++ {
-				time.Sleep(100 * time.Microsecond)
+			for i := 0; cs.NClientLost.Load() == lost0; i++ {
+				time.Sleep(200 * time.Microsecond)
+				if i > 600000 {
+					cs.Fatal("the mux client's reader did not end within 120 s after Close")
+				}
 			}
 			return nsess * nmsg, nbytes.Load(), true
 		case m := <-cs.ServerFatal:
